@@ -4,7 +4,7 @@ import os
 from .. import core
 
 DEV = dict(D_NextCreeps=False, D_FlushNoCommit=False, D_PanicNoCommit=False)
-ORDER = {"log", "enter", "probe", "crash", "registration-panic"}
+ORDER = {"log", "enter", "probe", "crash", "registration-panic", "limit"}
 
 
 def ccfg(mode, minn, maxn, scripts, base="N", emit=True, invs=("NoCrash", "LogPrefix", "LogComplete"), hooks=("none",), **dev):
@@ -19,6 +19,10 @@ def instance(chk, name, mode, minn, maxn, scripts, base="N", kinds=("route",), o
     out = os.path.join(core.scratch(), "chain-%s.ndjson" % name)
     with open(out, "w") as fo:
         def cb(o):
+            if "limit" in o:
+                fo.write(json.dumps(o, separators=(",", ":")))
+                fo.write("\n")
+                return
             for k in kinds:
                 o["kind"] = k
                 fo.write(json.dumps(o, separators=(",", ":")))
